@@ -23,10 +23,15 @@ ASSUMPTIONS = ["filters are deterministic and given by a finite rejected set (DF
 
 def gen(rng, tier):
     rng.seed(rng.getrandbits(64) ^ 0xC12)
-    n = 60 if tier == "quick" else 800
+    n = 120 if tier == "quick" else 1200
     cases = []
     for i in range(n):
-        c = EG.gen_case(rng, enum=EG.ALL_ENUMS[i % 7], small=True)
+        # beap search is the enumerator that handles filters and merges correctly on the
+        # unchanged tree (see the known findings for the others): it gets more of the cases
+        rotation = EG.ALL_ENUMS + ["bps", "bps", "bps"]
+        c = EG.gen_case(rng, enum=rotation[i % len(rotation)], small=True)
+        if c["enum"] == "bps" and i % 2 == 0:
+            c["weights"]["kind"] = "random"
         g = c["grammar"]
         if c["enum"] in EG.DET_ENUMS:
             g["kind"] = "cfg"
@@ -38,8 +43,18 @@ def gen(rng, tier):
             pool += D.terms(dsl, b, 2, rng, 8, allow_const=False)
         if not pool:
             continue
-        if rng.random() < 0.6:
+        leaves = [t for t in pool if t[0] == 0]
+        r = rng.random()
+        if r < 0.2 and leaves and c["enum"] in EG.DET_ENUMS:
+            # an automaton filter (DFTAFilter) without a rule for some leaves: rejects whatever contains them
+            c["dfta_rejected"] = [rng.choice(leaves) for _ in range(rng.randint(1, 2))]
+            c["dfta_state"] = rng.choice([0, 0, "q"])
+            c["rejected"] = c["dfta_rejected"]
+            c["kind"] += "/dfta-filter"
+        elif r < 0.6:
             c["rejected"] = [rng.choice(pool) for _ in range(rng.randint(1, 4))]
+            if leaves and rng.random() < 0.6:
+                c["rejected"].append(rng.choice(leaves))      # often the whole cheapest cost class of a non-terminal
             c["kind"] += "/filter"
         else:
             ks = sorted(rng.sample(range(0, 7), rng.randint(1, 2)))
@@ -63,6 +78,8 @@ def to_model(case, io):
         if "rejected" in case:
             return [(13, [io["utable"], io["starts"], fuel, case["rejected"], io["out"]])]
         return [(14, [io["utable"], io["starts"], fuel, [[m[0], m[2]] for m in case["merges"]], io["out"]])]
+    if "dfta_rejected" in case:
+        return [(6, [io["table"], io["start"], fuel, case["dfta_rejected"], io["out"]])]
     if "rejected" in case:
         return [(3, [io["table"], io["start"], fuel, case["rejected"], io["out"]])]
     return [(4, [io["table"], io["start"], fuel, [[m[0], m[2]] for m in case["merges"]], io["out"]])]
